@@ -1,0 +1,12 @@
+//go:build verif
+
+// Contracts for package jitter, used by /verif (gvc).  This file contains no
+// declarations; it is compiled only with the verif build tag.
+
+package jitter
+
+//@ func (*Estimator).Accumulate
+//@   trusted
+//@   why jitter.go: updates the estimator's own fields (atomically)
+//@   requires nonnil: e != nil
+//@   modifies *e
